@@ -77,8 +77,6 @@ def build_driver(work, race=False):
             parts = f.split("__")
             replace[os.path.join(REPO, *parts[:-1], "zz_verif_" + parts[-1])] = os.path.join(shims, f)
     ov = os.path.join(work.dir, "overlay.json")
-    with open(ov, "w") as fh:
-        json.dump({"Replace": replace}, fh)
     out = os.path.join(work.dir, "driver-race" if race else "driver")
     cmd = ["go", "build", "-tags", "verif", "-overlay", ov, "-o", out]
     if race:
@@ -86,9 +84,28 @@ def build_driver(work, race=False):
 
     cmd.append("./internal/zzverif/driver")
     t0 = time.time()
-    p = subprocess.run(cmd, cwd=REPO, env=GOENV, capture_output=True, text=True)
-    if p.returncode != 0:
-        raise HarnessError("driver build failed:\n" + p.stdout + p.stderr)
+    # a shim reads unexported state of a package; a refactoring of that package that keeps every listed property can make
+    # it stop compiling.  That must not take all checks down: shims_fallback/<shim name>.<k>.go are tried in order, each
+    # assuming less about the package (what it can no longer see is reported as unknown and not judged).
+    fb_dir = os.path.join(VERIF, "harness", "shims_fallback")
+    level = 0
+    while True:
+        with open(ov, "w") as fh:
+            json.dump({"Replace": replace}, fh)
+        p = subprocess.run(cmd, cwd=REPO, env=GOENV, capture_output=True, text=True)
+        if p.returncode == 0:
+            break
+        level += 1
+        swapped = False
+        for f in sorted(os.listdir(shims)):
+            fb = os.path.join(fb_dir, f[:-3] + ".%d.go" % level)
+            if f.endswith(".go") and os.path.exists(fb) and (f in (p.stdout + p.stderr) or os.path.basename(replace[os.path.join(REPO, *f.split("__")[:-1], "zz_verif_" + f.split("__")[-1])]) in (p.stdout + p.stderr)):
+                parts = f.split("__")
+                replace[os.path.join(REPO, *parts[:-1], "zz_verif_" + parts[-1])] = fb
+                swapped = True
+                log("[build] shim %s does not compile against this tree; falling back to %s" % (f, os.path.basename(fb)))
+        if not swapped:
+            raise HarnessError("driver build failed:\n" + p.stdout + p.stderr)
     log("[build] driver%s built in %.1fs" % (" (race)" if race else "", time.time() - t0))
     return out
 
@@ -300,7 +317,7 @@ def load_known():
 
 def case_signature(case):
     """what identifies a failing Layout case: canonical input + the options that reach the library"""
-    keys = ["n", "edges", "names", "p1", "p2", "p3", "p4", "p5", "ns", "nsd", "sden", "ls", "fixed", "smap", "virt", "bkl", "oo", "thor", "mon", "sc", "bad",
+    keys = ["n", "edges", "names", "p1", "p2", "p3", "p4", "p5", "ns", "nsd", "sden", "ls", "fixed", "smap", "virt", "bkl", "oo", "dup", "thor", "mon", "sc", "bad",
             "rel", "part"]
     return {k: case[k] for k in keys if k in case and case[k] not in ("", [], None)}
 
